@@ -321,13 +321,25 @@ func (i *Interpreter) Exec(ctx context.Context, bs match.Bindings, props core.St
 		env["match"] = func(pat, mess, bs goja.Value) interface{} {
 			var bindings match.Bindings
 
+			// What the script passes goes through
+			// encoding/json (and the matcher), which recurse
+			// over it: like what a script returns or emits,
+			// it has to be a finite tree of a sane depth.
+			exported := func(v goja.Value) interface{} {
+				x := v.Export()
+				if err := checkPlain(x); err != nil {
+					panic(err)
+				}
+				return x
+			}
+
 			if bs == nil {
 				bindings = match.NewBindings()
 			} else {
 
 				// Having some trouble here.  Please don't
 				// tell anyone I'm resorting to
-				x, err := canonicalize(bs.Export())
+				x, err := canonicalize(exported(bs))
 				if err != nil {
 					panic(err)
 				}
@@ -345,11 +357,11 @@ func (i *Interpreter) Exec(ctx context.Context, bs match.Bindings, props core.St
 				err error
 			)
 
-			if p, err = canonicalize(pat.Export()); err != nil {
+			if p, err = canonicalize(exported(pat)); err != nil {
 				panic(err)
 			}
 
-			if m, err = canonicalize(mess.Export()); err != nil {
+			if m, err = canonicalize(exported(mess)); err != nil {
 				panic(err)
 			}
 
@@ -387,7 +399,11 @@ func (i *Interpreter) Exec(ctx context.Context, bs match.Bindings, props core.St
 			case goja.Value:
 				x = vv.Export()
 			}
-			js, err := json.Marshal(&x)
+			err := checkPlain(x)
+			var js []byte
+			if err == nil {
+				js, err = json.Marshal(&x)
+			}
 			if err != nil {
 				log.Println("goja.log (can't marshal: " + err.Error() + ")")
 			} else {
